@@ -21,6 +21,7 @@ Not decided: floating-point drift; jinta (an mtr-style smoothed estimator withou
 import re
 
 from .common import *
+from ..tables import cdec, cwant
 from .state_common import *
 from ..poly import poly, equal, show_poly
 
@@ -184,10 +185,11 @@ def run(chk, tier):
         d = [(vshow(a), v) for a, v, _ in o.st.decisions]
         val = vshow(o.value)
         det.append((d, val[:90]))
-        if d == [('Gt(self.total_sent, 0)', 1)]:
+        cd = cdec(o)
+        if cd == cwant([('Gt(self.total_sent, 0)', 1)]):
             if not re.fullmatch(r'Mul\(Div\(as_f64\(Sub\(self\.total_sent, self\.total_recv\)\), as_f64\(self\.total_sent\)\), const:f64\(4636737291354636288\)\)', val):
                 okv = False
-        elif d == [('Gt(self.total_sent, 0)', 0)]:
+        elif cd == cwant([('Gt(self.total_sent, 0)', 0)]):
             if not re.fullmatch(r'const:f64\(0\)', val):
                 okv = False
         else:
@@ -257,7 +259,7 @@ def run(chk, tier):
             chk.fail('R6', fld, where, 'the update of Hop.%s is not algebraically equal to its definition %s: code computes %s' % (fld, text, show_poly(got)[:300]),
                      detail={'code': show_poly(got), 'definition': show_poly(want)}, key='R6|%s|recurrence' % fld)
     # min / max / sum
-    for fld, rx, text in (('best', r'Option::Some\((Min\(unwrap\(field:best\(%s\)\), D\)|D)\)', 'best = min'), ('worst', r'Option::Some\((Max\(unwrap\(field:worst\(%s\)\), D\)|D)\)', 'worst = max'),
+    for fld, rx, text in (('best', r'Option::Some\((Min\(field:0\(field:best\(%s\)\), D\)|D)\)', 'best = min'), ('worst', r'Option::Some\((Max\(field:0\(field:worst\(%s\)\), D\)|D)\)', 'worst = max'),
                           ('last', r'Option::Some\(D\)', 'last = rtt')):
         D = r'unwrap_or_default\(call:SystemTime::duration_since\(p\.received, p\.sent\)\)'
         vals = {v for t in tr['Complete'] for v in t.writes.get(('Hop', fld), [])}
